@@ -663,11 +663,13 @@ def _split_opstr(optstr):
     import re
     stack = []
     split_pos = []
-    for match in re.finditer(r',|\(|\)', optstr):
+    # Directives are separated by commas or (like option directives of the
+    # standard doctest module) by whitespace in front of the next +/- sign
+    for match in re.finditer(r',|\(|\)|\s+(?=[+-])', optstr):
         token = match.group()
-        if token == ',' and not stack:
+        if (token == ',' or token.isspace()) and not stack:
             # Only split when there are no parens
-            split_pos.append(match.start())
+            split_pos.append((match.start(), match.end()))
         elif token == '(':
             stack.append(token)
         elif token == ')':
@@ -676,11 +678,12 @@ def _split_opstr(optstr):
 
     parts = []
     prev = 0
-    for curr in split_pos:
-        parts.append(optstr[prev:curr].strip())
-        prev = curr + 1
-    curr = None
-    parts.append(optstr[prev:curr].strip())
+    for start, end in split_pos:
+        parts.append(optstr[prev:start].strip())
+        prev = end
+    parts.append(optstr[prev:].strip())
+    # (a comma followed by a blank separates once, not twice)
+    parts = [part for part in parts if part]
     return parts
 
 
